@@ -742,4 +742,21 @@ theorem bodyFlush_tcp_accept (go : Call → St → St × Ret) (fd : Nat) (s : St
         · simp only [conn?_notify]
           split <;> simp only [conn?_notify, hsp.1, Option.map_some, Option.map_map] <;> rfl
 
+/-- `read_answers`' deferred re-sends: every queued id that still belongs to a query is re-sent through
+    `ares_send_query` (to the recorded server, if any) -/
+theorem bodyFlushRequeue_resends (go : Call → St → St × Ret) (s : St) (qid : Nat) (srv : Option Nat)
+    (rest : List (Nat × Option Nat)) (id key : Nat) (hr : s.requeueArr = (qid, srv) :: rest)
+    (hf : s.byQid.find? (·.1 == qid) = some (id, key)) :
+    bodyFlushRequeue go s =
+      go .flushRequeue (go (.sendQuery srv key) { s with requeueArr := rest }).1 := by
+  unfold bodyFlushRequeue
+  simp only [hr]
+  have : ({ s with requeueArr := rest } : St).byQid = s.byQid := rfl
+  simp only [this, hf]
+
+/-- a query switched to TCP is sent on the server's TCP connection (opened as TCP when there is none) -/
+theorem fetchConn_tcp (s : St) (q : Query) (srv : Server) (h : q.usingTcp = true) :
+    fetchConn s q srv = srv.tcpConn := by
+  unfold fetchConn; simp only [h, ↓reduceIte]
+
 end Cares.Chan
